@@ -9,7 +9,7 @@ DESCRIPTION = {
              "asyncio the virtual loop's create_connection() is scripted; the router side speaks raw bytes (WebSocket via the reference framer, RawSocket 4-octet handshake).  "
              "Hypothesis draws 1-3 transports (websocket/rawsocket), max_retries in {0,1,2,5,-1}, initial/growth/jitter/maximum retry delays from a grid, an is_fatal classifier, "
              "main present or not, a per-attempt outcome list {refused, connected-then-handshake-rejected, connected-then-ABORT, joined-then-lost (clean/unclean), "
-             "joined-then-GOODBYE (normal / shutdown), main returns, main raises} and an optional stop() point (during a delay, during connect, while joined).  Oracle = model of "
+             "joined-then-GOODBYE (normal / shutdown), main returns, main raises} and an optional stop() point (during a delay, during connect, while joined - the router then answers the GOODBYE or just drops the connection).  Oracle = model of "
              "the documented policy: attempts visit transports round-robin skipping exhausted/failed ones; per transport attempts since its last successful join <= max_retries+1; "
              "none after a fatal error; first attempt on a transport without delay, later gaps <= max_retry_delay; after a failed/lost connection a new attempt appears within "
              "max_retry_delay while any transport has budget; start()'s result completes exactly once - success on normal leave / main finished / stop(), error when main fails or "
@@ -38,7 +38,8 @@ def strategy():
     return st.fixed_dictionaries({
         "transports": st.lists(tr, min_size=1, max_size=3), "outcomes": st.lists(st.sampled_from(OUTCOMES), min_size=1, max_size=10),
         "main": st.booleans(), "fatal": st.sampled_from([None, None, "refused", "abort", "transport1"]),
-        "stop": st.one_of(st.none(), st.tuples(st.sampled_from(["delay", "connect", "joined"]), st.integers(0, 6))), "hold": st.sampled_from([0.0, 0.7, 3.0]), "seed": st.integers(0, 1 << 20)})
+        "stop": st.one_of(st.none(), st.tuples(st.sampled_from(["delay", "connect", "joined"]), st.integers(0, 6))), "hold": st.sampled_from([0.0, 0.7, 3.0]), "seed": st.integers(0, 1 << 20),
+        "stop_reply": st.sampled_from(["reply", "reply", "drop"])})
 
 
 class Conn:
@@ -309,6 +310,12 @@ class World:
                                     a["joined_at"] = self.d.now()
                     elif m[0] == 6:     # GOODBYE from the client
                         conn.goodbye_seen = True
+                        if self.stop_called_at is not None and self.c.get("stop_reply") == "drop" and conn.stage != "goodbye-sent":
+                            # the router never answers the GOODBYE that stop() caused: the connection just goes away
+                            conn.stage = "left"
+                            self.end_conn(conn, "lost")
+                            progressed = True
+                            continue
                         if conn.stage != "goodbye-sent":
                             self.send_wamp(conn, [6, {}, "wamp.close.goodbye_and_out"])
                         conn.stage = "left"
